@@ -370,23 +370,6 @@ def der_real(x):
     return bytes([0x09]) + der_len(len(c)) + c
 
 
-def real_is_subnormal(x):
-    return not isinstance(x, str) and x != 0 and abs(x) < 2.0**-1022
-
-
-def real_leading_zero_region(x):
-    """C16-real-leading-zero: the significand 2^52+f has 5, 6 or 7 (mod 8) trailing zero bits"""
-    if isinstance(x, str) or x == 0:
-        return False
-    bits = struct.unpack(">Q", struct.pack(">d", x))[0]
-    e, f = (bits >> 52) & 0x7ff, bits & ((1 << 52) - 1)
-    if e == 0:
-        return False
-    m = (1 << 52) + f
-    tz = (m & -m).bit_length() - 1
-    return tz % 8 >= 5
-
-
 def widetypes_module(rng, tier):
     names = ["R", "E", "EH", "EX", "I", "IL", "IU", "IB", "IS", "IX", "IN", "I8", "RS", "RC", "RL", "EL", "IQ"]
     seq = lambda *items: bytes([0x30]) + der_len(sum(len(i) for i in items)) + b"".join(items)
@@ -398,8 +381,17 @@ def widetypes_module(rng, tier):
             meta[(tn, b.hex())] = {"reals": list(reals)}
     reals = REAL_SPECIALS + REAL_NUMBERS + [-x for x in REAL_NUMBERS[6:14]]
     for _ in range(6 if tier == "quick" else 60):
-        # random doubles with a short significand (so that the C16 leading-zero region is met rarely and recognisably)
+        # random doubles with a short significand
         reals.append(math.ldexp(float(rng.range(1, 1 << rng.range(1, 30)) * 2 + 1), rng.range(-80, 80)) * (-1 if rng.chance(1, 2) else 1))
+    # the native path (asn_double2REAL) against the wide path (octets kept as decoded): every make-odd shift 0..7 at
+    # several mantissa lengths (a shift of 5..7 empties the first kept octet), full significands, subnormals with
+    # leading zero octets in the fraction
+    for k in range(53):
+        if tier != "quick" or k % 3 == rng.below(3) or 44 <= k:
+            reals.append(math.ldexp(float((1 << 52) + (1 << k)), rng.range(-1074, 900)))
+    for _ in range(8 if tier == "quick" else 80):
+        reals.append(math.ldexp(float((1 << 52) + rng.below(1 << 52)), rng.range(-1074, 900)) * (-1 if rng.chance(1, 2) else 1))
+        reals.append(math.ldexp(float(rng.range(1, (1 << rng.range(1, 52)) - 1)), -1074) * (-1 if rng.chance(1, 2) else 1))
     for x in reals:
         add("R", der_real(x), [x])
     for v in (-2147483648, -1, 0, 1, 2147483647, 4294967295):
